@@ -111,7 +111,7 @@ def snapshot (st : St) (rc : Nat) : St :=
       | none => none
     if cur == some id then (l ++ [d], s ++ "u") else (l ++ [(name, id, false)], s ++ "s")) ([], "")
   let tok := toString rc ++ "|" ++ ";".intercalate parts ++ "|h=" ++ hex32 st1.ctx.modulesHash ++ "|cc=" ++ toString st1.ctx.changeCount.toNat
-    ++ "|d=" ++ dstr
+    ++ "|d=" ++ dstr ++ "|x=" ++ toString (st1.ctx.mods.filter (·.broken)).length
   { st1 with data := data', out := st1.out ++ [tok] }
 
 def rcOf (r : Except Nat Unit) : Nat := match r with | .ok _ => 0 | .error e => e
